@@ -34,14 +34,13 @@ ASSUMPTIONS = ['textual order is the order of the canonical print of the tree (a
                'statements other than the eight judged kinds are not judged (the walker only visits their root)',
                'clones for the replacement passes are made by reflection and checked structurally equal to the '
                'parsed tree before use']
-FLOORS = {'quick': {'__nontrivial__': 700, 'judged': 3000, 'has:join': 700, 'has:subselect': 700, 'has:case': 200,
-                    'has:case-arg': 100, 'has:from_arg': 80, 'has:window': 150, 'has:cte': 150, 'has:dml': 500,
-                    'has:setop': 250, 'has:tuple': 200, 'has:typecast': 150, 'has:values': 150, 'has:exists': 80,
-                    'replace-passes': 30000},
-          'thorough': {'__nontrivial__': 5000, 'judged': 30000, 'has:join': 7000, 'has:subselect': 7000,
-                       'has:case': 2000, 'has:case-arg': 1000, 'has:from_arg': 800, 'has:window': 1500,
-                       'has:cte': 1500, 'has:dml': 5000, 'has:setop': 2500, 'has:tuple': 2000, 'has:typecast': 1500,
-                       'has:values': 1500, 'has:exists': 800, 'replace-passes': 300000}}
+_Q = {'__nontrivial__': 650, 'judged': 1900, 'has:join': 780, 'has:subselect': 1000, 'has:case': 120, 'has:case-arg': 45,
+      'has:from_arg': 125, 'has:window': 110, 'has:window-partition': 75, 'has:window-order': 75, 'has:cte': 230,
+      'has:dml': 600, 'has:setop': 340, 'has:tuple': 450, 'has:typecast': 150, 'has:values': 140, 'has:exists': 90,
+      'has:parameter': 650, 'stmt:Insert': 200, 'stmt:Update': 160, 'stmt:Delete': 120, 'stmt:CreateTable': 80,
+      'dialect:mysql': 500, 'dialect:sqlite': 500, 'replace-passes': 35000}
+# calibrated on seeds 1..5 (quick, 16 shards): <= 1/3 of the minimum seen; thorough draws 11x as many cases
+FLOORS = {'quick': _Q, 'thorough': {k: v * (5 if k == '__nontrivial__' else 8) for k, v in _Q.items()}}
 N = {'quick': 450, 'thorough': 5000}
 MAXK = 48
 JUDGED = ('Select', 'Union', 'Intersect', 'Except', 'Insert', 'Update', 'Delete', 'CreateTable')
@@ -118,7 +117,7 @@ def judge(case, col):
     from mindsdb_sql import parse_sql
     from mindsdb_sql.exceptions import ParsingException
     from mindsdb_sql.parser.ast.base import ASTNode
-    from mindsdb_sql.parser.ast import Constant
+    from mindsdb_sql.parser.ast import Constant, Identifier
     from mindsdb_sql.planner.utils import query_traversal
     from sly.lex import LexError
     d, sql = case['dialect'], case['sql']
@@ -140,6 +139,12 @@ def judge(case, col):
         return []
     cfg = {'dialect': d, 'stmt': stmt}
     out = []
+
+    def marker(target, tag=''):
+        # a node of another class than the replaced one, so that a structural diff stops at the node
+        if isinstance(target, Constant):
+            return Identifier(parts=[MARK + tag])
+        return Constant(MARK + tag)
 
     def rec(kind, site, detail, features=()):
         out.append(findings.record(kind, site, features, cfg, detail, sql))
@@ -284,7 +289,7 @@ def judge(case, col):
                 continue
             Ta, Tb = W.clone(P), W.clone(P)
             ta, tb = W.ref_walk(Ta)[k].node, W.ref_walk(Tb)[k].node
-            ma, mb = Constant(MARK), Constant(MARK)
+            ma, mb = marker(ta), marker(tb)
 
             def cbk(node, is_table=False, is_target=False, parent_query=None, **kw):
                 return ma if node is ta else None
@@ -313,7 +318,7 @@ def judge(case, col):
         if leaves:
             Ta, Tb = W.clone(P), W.clone(P)
             Ra, Rb = W.ref_walk(Ta), W.ref_walk(Tb)
-            ma = {id(Ra[i].node): Constant(f'{MARK}{i}') for i in leaves}
+            ma = {id(Ra[i].node): marker(Ra[i].node, str(i)) for i in leaves}
             hold = [Ra[i].node for i in leaves]
 
             def cba(node, is_table=False, is_target=False, parent_query=None, **kw):
@@ -323,7 +328,7 @@ def judge(case, col):
                 query_traversal(Ta, cba)
                 E = Tb
                 for i in leaves:
-                    E = W.replace_everywhere(E, Rb[i].node, Constant(f'{MARK}{i}'))
+                    E = W.replace_everywhere(E, Rb[i].node, marker(Rb[i].node, str(i)))
                 sa, se = struct(Ta), struct(E)
                 if sa != se:
                     dd = diff(se, sa)
